@@ -56,14 +56,16 @@ def canon(prog, node, nummap):
     f = lambda n: ast_field(prog, node, n)
     def num(v):
         c = v.concrete()
-        if c is not None and v._bv is None: return 'ONE' if c == 1 else ('const', c)
+        if c is not None: return 'ONE' if c == 1 else ('const', c)
         return nummap.get(v.bv.get_id(), ('expr', str(v.bv)))
     def optnum(o):
         o = MM.deref_all(o); return None if o.variant == 'None' else num(o.fields[0].v)
     if k == 'Identity': return ('Identity',)
     if k == 'Field': return ('Field', f('name').concrete())
     if k == 'Literal':
-        v = MM.deref_all(f('value')); return ('Literal', 'L%d' % MM.cval(v.fields[0].v.val))
+        v = MM.deref_all(f('value'))
+        if v.variant == 'Number' and v.fields[0].v.kind == 'pos' and v.fields[0].v.val.concrete() is not None: return ('Literal', 'L%d' % v.fields[0].v.val.concrete())
+        return ('Literal', repr(v)[:80])
     if k == 'Index': return ('Index', num(f('idx')))
     if k == 'Slice': return ('Slice', optnum(f('start')), optnum(f('stop')), num(f('step')))
     if k in ('Not', 'ObjectValues', 'Flatten'): return (k, canon(prog, f('node'), nummap))
